@@ -72,6 +72,7 @@ class ModelDriver:
         self.rgene = {v: k for k, v in self.gene.items()}
         self.rgrp = {v: k for k, v in self.grp.items()}
         self.sols = []
+        self.ctx_ids = {}                  # per slot: (reaction ids, metabolite ids) at each open Enter
         self.detached = {1: {}, 2: {}}     # reaction objects that left a model: slot -> abstract id -> object
 
     # ------------------------------------------------------------ numbers
@@ -183,6 +184,7 @@ class ModelDriver:
             if op["solver"] != "glpk":
                 m.solver = op["solver"]
             self.models[s] = m
+            self.ctx_ids[s] = []
             return None
         model = self.models.get(s)
         if a == "LoadDoc":
@@ -197,14 +199,18 @@ class ModelDriver:
             return None
         if a == "Enter":
             model.__enter__()
+            self.ctx_ids.setdefault(s, []).append(({r.id for r in model.reactions}, {m.id for m in model.metabolites}))
             return None
         if a == "Exit":
             if not model._contexts:
                 raise Skip("no open context")
+            if self.ctx_ids.get(s):
+                self.ctx_ids[s].pop()
             model.__exit__(None, None, None)
             return None
         if a == "Copy":
             t = op["t"]
+            self.ctx_ids[t] = []
             if op["kind"] == "copy":
                 self.models[t] = model.copy()
             elif op["kind"] == "deepcopy":
@@ -395,12 +401,16 @@ class ModelDriver:
             rxn = self.get_rxn(model, op["r"])
             if op["r"] == op["new"]:
                 raise Skip("same id")
+            if any(self.rx[op["new"]] in ids[0] for ids in self.ctx_ids.get(s, [])[:len(model._contexts)]):
+                raise Skip("an open context will bring that id back")
             rxn.id = self.rx[op["new"]]
             return None
         if a == "RenameMetabolite":
             met = self.get_met(model, op["met"])
             if op["met"] == op["new"] or (op["met"] in EXT) != (op["new"] in EXT):
                 raise Skip("same id / other compartment")
+            if any(self.met[op["new"]] in ids[1] for ids in self.ctx_ids.get(s, [])[:len(model._contexts)]):
+                raise Skip("an open context will bring that id back")
             met.id = self.met[op["new"]]
             return None
         if a == "SetObjective":
